@@ -20,7 +20,7 @@ from ..ctx import scratch_dir  # noqa: E402
 
 ID = "C14"
 LEVEL = "fault_enumeration"
-TIERS = {"quick": {"shards": 16, "budget_s": 120, "streams": 2, "max_blocks": 12, "schedules_per_point": 3, "line_runs": 12, "sigint": 4, "systematic_pipelines": 1, "systematic_deviations": 1, "fault_runs": 8, "lagging_saver_runs": 4},
+TIERS = {"quick": {"shards": 16, "budget_s": 120, "streams": 2, "max_blocks": 12, "schedules_per_point": 3, "line_runs": 12, "sigint": 6, "systematic_pipelines": 1, "systematic_deviations": 1, "fault_runs": 8, "lagging_saver_runs": 4},
          "thorough": {"shards": 16, "budget_s": 900, "streams": 14, "max_blocks": 40, "schedules_per_point": 12, "line_runs": 300, "sigint": 64, "systematic_pipelines": 4, "systematic_deviations": 2, "fault_runs": 400, "lagging_saver_runs": 200}}
 RULE = ("Fault enumeration of the stop point: for each generated stream of n blocks the scheduled main thread calls stop_all() "
         "after k source reads have started, for EVERY k in 0..n+2 (before the first read, between any two reads, after the "
@@ -432,9 +432,24 @@ def sigint_child(ctx, rng, tmpdir, idx):
         p.kill()
         err = p.communicate()[1][-500:]
         return {"inconclusive": watchdog + " stderr=" + err.decode("utf-8", "replace")}
+    twice = idx % 3 == 2
+    if twice:
+        # the producer has gone quiet and the program has worked off what it got: its reading thread waits for input
+        import array
+        import termios
+
+        for _ in range(1000):
+            buf_ = array.array("i", [0])
+            try:
+                fcntl.ioctl(fd, termios.FIONREAD, buf_)
+            except OSError:
+                break
+            if buf_[0] == 0 or p.poll() is not None:
+                break
+            time.sleep(0.01)
+        time.sleep(0.5)
     time.sleep(rng.choice((0, 0.001, 0.01, 0.05)))
     p.send_signal(signal.SIGINT)
-    twice = idx % 2 == 1
     if twice:
         # an impatient user: Ctrl-C again while the program is busy stopping (the producer has gone quiet, the reading thread
         # waits for input, the main thread waits for the reading thread).  The second interrupt ends the main thread; the
